@@ -4,6 +4,7 @@
    Statements only; proofs in Proofs/SafeProofs.v (on top of the C09 development). *)
 From Coq Require Import ZArith NArith List Bool.
 From IE Require Import Model.TermCore Model.AnsiTok Model.Emu Proofs.TermProofs Proofs.AnsiProofs Proofs.EmuProofs Proofs.SafeProofs.
+From IE Require Import Model.Petscii Proofs.WeakInv Proofs.AnsiSafeW Proofs.EmuSafeW Proofs.PetsciiProofs Proofs.MacroFuel.
 Import ListNotations.
 Local Open Scope Z_scope.
 
@@ -98,3 +99,93 @@ Example fixed_scroll_left : outcome_of 0 [12; 27; 91; 32; 64; 27; 91; 32; 65] = 
 Example fixed_music : outcome_of 1 [27; 91; 77; 79; 54; 66; 43; 14] = 0. Proof. vm_compute. reflexivity. Qed.
 Example fixed_vpr : outcome_of 0 (repeat 10 80 ++ [27; 91; 50; 49; 52; 55; 52; 56; 51; 54; 52; 55; 101]) = 0. Proof. vm_compute. reflexivity. Qed.
 Example fixed_huge_margin : outcome_of 0 [27; 91; 49; 59; 50; 49; 52; 55; 52; 56; 51; 54; 52; 55; 114; 27; 91; 77] = 0. Proof. vm_compute. reflexivity. Qed.
+
+(* ==== Extension: resize, stored macros, the four wrappers, PETSCII ============================================================
+   W (Proofs/WeakInv.v) is the weak invariant that survives a text-area resize:
+     W t := (1 <= tw t /\ 1 <= th t /\ 1 <= bw t /\ 1 <= bh t /\ origin_m t = false /\ mnn (mtb t) /\ mnn (mlr t) /\
+             Forall (fun x => 0 <= x) (tabs t)) /\ 0 <= cx t /\ 0 <= cy t        with mnn (Some (a, b)) := 0 <= a <= b.
+   Inv09 t -> W t (Inv09_W); the initial state satisfies it; every operation keeps it and needs no more to be panic-free. *)
+
+(* (e) the ANSI parser, ANY parser state, ANY macro table, ANY nesting bound, before or after a resize: one character on a
+   W state yields an action or an error value on a W state; never a panic; the nesting overflow only while a macro is stored *)
+Theorem c01_ansi_char : forall fuel m ch, W (tm m) ->
+  match astep fuel m ch with OOk m' | OErr m' => W (tm m') | OPanic _ => False | ODiverge => macros (ps m) <> [] end.
+Proof. exact astep_char_total. Qed.
+
+(* (f) the ANSI parser and its four wrappers (wrapper e: EAnsi EAvatar EPcb ECtrlA ERenegade), EVERY stream of any length,
+   every screen size, every music / backspace option: the run ends in a state, or it stops in the macro-nesting overflow and
+   then the character at which it stops was processed with a macro stored (Stored m := macros (ps (am m)) <> []).
+   No side condition on resizes or macros; supersedes c01_ansi_stream_partial. *)
+Theorem c01_wrappers : forall e music bs w h cs,
+  wrapper e = true -> 1 <= w <= 132 -> 1 <= h <= 60 ->
+  (exists m', run e (init music bs w h) cs = RunOk m') \/
+  (run e (init music bs w h) cs = RunDiverge /\
+   exists pre c post m', cs = pre ++ c :: post /\ run e (init music bs w h) pre = RunOk m' /\ Stored m').
+Proof. exact c01_wrappers_proof. Qed.
+Theorem c01_wrappers_no_panic : forall e music bs w h cs s,
+  wrapper e = true -> 1 <= w <= 132 -> 1 <= h <= 60 -> run e (init music bs w h) cs <> RunPanic s.
+Proof. exact c01_wrappers_no_panic_proof. Qed.
+(* what holds after every stream, resized or not *)
+Theorem c01_wrappers_state : forall e music bs w h cs m',
+  wrapper e = true -> 1 <= w <= 132 -> 1 <= h <= 60 -> run e (init music bs w h) cs = RunOk m' -> W (mt m').
+Proof. exact c01_wrappers_state_proof. Qed.
+
+(* (g) PETSCII (Model/Petscii.v), full strength: every stream of any length on every screen ends in a state *)
+Theorem c01_petscii : forall music bs w h cs,
+  1 <= w <= 132 -> 1 <= h <= 60 -> exists m', run_petscii (init music bs w h) cs = RunOk m'.
+Proof. exact c01_petscii_proof. Qed.
+
+(* (h) all ten emulations in one statement: no stream makes any of them panic *)
+Theorem c01_no_emulation_panics : forall music bs w h cs s,
+  1 <= w <= 132 -> 1 <= h <= 60 ->
+  (forall e, run e (init music bs w h) cs <> RunPanic s) /\ run_petscii (init music bs w h) cs <> RunPanic s.
+Proof.
+  intros music bs w h cs s Hw Hh. split.
+  - intro e. destruct (wrapper e) eqn:We; [apply c01_wrappers_no_panic; assumption|].
+    assert (Se : standalone e = true) by (destruct e; try discriminate; reflexivity).
+    destruct (c01_standalone e music bs w h cs Se Hw Hh) as [m' E]. rewrite E. discriminate.
+  - destruct (c01_petscii music bs w h cs Hw Hh) as [m' E]. rewrite E. discriminate.
+Qed.
+
+(* (i) the nesting bound is only a bound: an outcome that is not the overflow is the outcome for every larger bound (the real
+   code has no bound); so a character overflows every bound iff the real recursion does not end *)
+Theorem macro_bound_is_only_a_bound : forall k fuel m ch, astep fuel m ch <> ODiverge -> astep (fuel + k) m ch = astep fuel m ch.
+Proof. exact astep_fuel_irrelevant. Qed.
+
+(* ---- non-vacuity of the extension ------------------------------------------------------------------------------------------------ *)
+Definition CSI : list Z := [27; 91].
+(* 30 LF, CSI 2;20 r, CSI 79 C, then the resize CSI 8;1;1 t: the cursor is outside the new 1 x 1 screen (the C09 invariant is gone) ... *)
+Definition RESIZED : list Z := repeat 10 30 ++ CSI ++ [50; 59; 50; 48; 114] ++ CSI ++ [55; 57; 67] ++ CSI ++ [56; 59; 49; 59; 49; 116].
+Example resize_breaks_c09 :
+  match run EAnsi (init 0 false 80 25) RESIZED with RunOk m => (cx (mt m) >=? tw (mt m)) && resized (ps (am m)) | _ => false end = true.
+Proof. vm_compute. reflexivity. Qed.
+(* ... and IL, DL, ICH, SL, SR, REP, ECH, insert-mode printing, RI, NEL, DECSTR, CUP afterwards still end in a state (model run) *)
+Definition AFTER : list Z :=
+  CSI ++ [76] ++ CSI ++ [77] ++ CSI ++ [51; 64] ++ CSI ++ [32; 64] ++ CSI ++ [32; 65] ++ [65] ++ CSI ++ [51; 98] ++ CSI ++ [53; 88] ++
+  CSI ++ [52; 104] ++ [66; 67] ++ [27; 77; 27; 69] ++ CSI ++ [33; 112] ++ CSI ++ [57; 59; 57; 72] ++ [10; 68].
+Example after_resize_runs : outcome_of 0 (RESIZED ++ AFTER) = 0. Proof. vm_compute. reflexivity. Qed.
+(* a stored (hex) macro whose body resizes, moves and prints; replayed twice through Avatar: ends in a state *)
+Definition MACRO7 : list Z := [27; 80; 55; 59; 48; 59; 49; 33; 122] ++
+  [49; 66; 53; 66; 51; 56; 51; 66; 51; 50; 51; 66; 51; 50; 55; 52; 52; 49; 49; 66; 53; 66; 51; 57; 52; 50; 52; 50] ++ ST.   (* ESC[8;2;2t A ESC[9B B *)
+Example macro_replay_runs :
+  match run EAvatar (init 0 false 80 25) (MACRO7 ++ CSI ++ [55; 42; 122] ++ CSI ++ [55; 42; 122]) with
+  | RunOk m => (tw (mt m) =? 2) && negb (Nat.eqb (length (macros (ps (am m)))) 0) | _ => false end = true.
+Proof. vm_compute. reflexivity. Qed.
+(* the Diverge side of c01_wrappers is inhabited (the known class), through a wrapper as well *)
+Example macro_recursion_through_pcboard :
+  match run EPcb (init 0 false 80 25) ([27; 80; 49; 59; 48; 59; 49; 33; 122; 49; 66; 53; 66; 51; 49; 50; 65; 55; 65; 27; 92] ++ [27; 91; 49; 42; 122]) with
+  | RunDiverge => true | _ => false end = true.
+Proof. vm_compute. reflexivity. Qed.
+(* PETSCII: reverse video on, print, shift mode, C128 escapes, cursor keys, clear: a state; an unsupported control code is an error value *)
+Example petscii_runs :
+  match run_petscii (init 0 false 40 25) [18; 65; 193; 255; 142; 14; 27; 68; 27; 73; 27; 81; 17; 145; 157; 29; 19; 20; 13; 141; 147; 0; 128] with
+  | RunOk m => (cx (mt m) =? 0) && (cy (mt m) =? 0) | _ => false end = true.
+Proof. vm_compute. reflexivity. Qed.
+Example petscii_error_value : petscii_step (init 0 false 40 25) 128 = MErr (init 0 false 40 25). Proof. vm_compute. reflexivity. Qed.
+(* macro 1 = "A", macro 2 = "ESC [ 1 * z": invoking macro 2 needs nesting 2: bound 1 overflows, bound 2 (and 32) end in a state *)
+Example nesting_two :
+  match run EAnsi (init 0 false 80 25) ([27; 80; 49; 59; 48; 59; 49; 33; 122; 52; 49; 27; 92] ++ [27; 80; 50; 59; 48; 59; 49; 33; 122; 49; 66; 53; 66; 51; 49; 50; 65; 55; 65; 27; 92] ++ [27; 91; 50; 42]) with
+  | RunOk m => (match astep 1 (am m) 122 with ODiverge => true | _ => false end) && (match astep 2 (am m) 122 with OOk _ => true | _ => false end)
+               && (match astep 32 (am m) 122 with OOk _ => true | _ => false end)
+  | _ => false end = true.
+Proof. vm_compute. reflexivity. Qed.
